@@ -68,8 +68,8 @@ def _simulate(ctx, cfg, prefix, num, depth, impl=None):
 def _harness(ctx, tag, scripts, builtin):
     """one process of the overlay test; returns the trace path"""
     env = {"VERIF_SHARD": str(tag)}
-    if os.path.isdir("/dev/shm") and os.access("/dev/shm", os.W_OK):
-        env["VERIF_DBDIR"] = "/dev/shm"
+    if getattr(ctx, "_vsv_dbdir", None):
+        env["VERIF_DBDIR"] = ctx._vsv_dbdir
     if scripts is not None:
         inp = os.path.join(ctx.work, "serve-scripts-%s.ndjson" % tag)
         write_scripts(inp, scripts)
@@ -158,8 +158,18 @@ def run(ctx, monitors):
 
 def _judge(ctx, monitors, scripts, jobs):
     bin_for(ctx, PKG)            # build once, before the shards start
-    with ThreadPoolExecutor(max_workers=len(jobs)) as ex:
-        traces = list(ex.map(lambda j: _harness(ctx, *j), jobs))
+    # database files of the scenarios live on tmpfs when there is one (an fsync on the work disk costs
+    # ~0.1 s, a scenario does several); the directory is created and removed by this run
+    ctx._vsv_dbdir = None
+    if os.path.isdir("/dev/shm") and os.access("/dev/shm", os.W_OK):
+        ctx._vsv_dbdir = "/dev/shm/verif-vsv-%d" % os.getpid()
+        os.makedirs(ctx._vsv_dbdir, exist_ok=True)
+    try:
+        with ThreadPoolExecutor(max_workers=len(jobs)) as ex:
+            traces = list(ex.map(lambda j: _harness(ctx, *j), jobs))
+    finally:
+        if ctx._vsv_dbdir:
+            shutil.rmtree(ctx._vsv_dbdir, ignore_errors=True)
     byname = {s["name"]: s for s in scripts}
     # ------------------------------------------------------------------ 4. trace validation
     def val(tp):
